@@ -64,6 +64,13 @@ func main() {
 			os.Exit(1)
 		}
 		return
+	case "searchprog":
+		if err := genSearch(w, *repo); err != nil {
+			w.Flush()
+			fmt.Fprintln(os.Stderr, "searchprog:", err)
+			os.Exit(1)
+		}
+		return
 	case "facts":
 		if err := genFacts(w, *repo); err != nil {
 			w.Flush()
